@@ -1,9 +1,10 @@
 (** RoundTripRef.v — property C04: clauses of [LibcRoundTripSpec] PROVED for the executable
     reference implementations (LibcNum.strtod_ref, LibcPrint.fmt_d): clause N2 — the text of
     sprintf "%d" of a C int is converted by strtod, completely, to exactly (double) of that int.
-    (Clause S is [RoundTripEvidence.ref_scan].  The "%g" clauses N3, N4, N4z, N5a, N5b and the
-    well-formedness clause V for all texts are not proved for the reference; they are evaluated
-    on the table of RoundTripEvidence.v.) *)
+    (Clause S is [RoundTripEvidence.ref_scan], clause V [RoundTripRefValid.ref_valid].  The "%g"
+    clauses N3, N4, N4z, N5a, N5b are not proved for the reference; they are evaluated on the
+    table of RoundTripEvidence.v.)  Also: reading back the digits [dec_fixed] wrote, used by the
+    artificial library of RoundTripModel.v. *)
 From CJ Require Import Base Dbl Tree LibcNum LibcPrint Grammar ParseDefs ParseComplete PrintDefs
   PrintStrict PrintStrictRef RoundTripNum RoundTripInt.
 Local Open Scope Z_scope.
